@@ -29,7 +29,7 @@ def consts_for(g, pairing, wset, maxinst, maxrest, nrestore=0):
 def interleaved(ctx, g, wset, maxinst, maxrest):
     for pairing in ("AB", "SS"):
         consts, wset_ = consts_for(g, pairing, wset, maxinst, maxrest)
-        res = ctx.mc("MC_Agree", cfg(constants=consts, constraints=["OneExchange"], invariants=INVS,
+        res = ctx.mc("MC_Agree", cfg(view="ViewNoLast", constants=consts, constraints=["OneExchange"], invariants=INVS,
                                      properties=["ScalarStable"]),
                      label="MC_Agree/interleaved[%s,%s,|w|=%d,inst<=%d,restores<=%d]" % (g, pairing, len(wset_), maxinst, maxrest),
                      coverage=(g == "i11" and len(wset_) <= 1 and pairing == "AB"))
@@ -41,13 +41,13 @@ def sequential(ctx, g, wset, nrestore, witness):
     for pairing in ("AB", "SS"):
         consts, wset_ = consts_for(g, pairing, wset, 2 + nrestore, nrestore, nrestore)
         label = "MC_Agree/sequential[%s,%s,|w|=%d,all x,y,restores=%d]" % (g, pairing, len(wset_), nrestore)
-        ctx.mc("MC_Agree", cfg(spec="SeqSpec", constants=consts, invariants=INVS, properties=["ScalarStable"]),
+        ctx.mc("MC_Agree", cfg(view="ViewNoLast", spec="SeqSpec", constants=consts, invariants=INVS, properties=["ScalarStable"]),
                label=label, coverage=False)
         if witness:
             # more specific witnesses first: TLC reports one violated invariant per state
             ws = (["NoWitnessIdentityRefused"] if g in TOY_CURVES else []) + ["NoWitnessReflection"] + \
                 (["NoWitnessAgreementAfterRestore"] if nrestore else ["NoWitnessAgreement"])
-            ctx.witness("MC_Agree", cfg(spec="SeqSpec", constants=consts, invariants=ws), ws, label=label)
+            ctx.witness("MC_Agree", cfg(view="ViewNoLast", spec="SeqSpec", constants=consts, invariants=ws), ws, label=label)
 
 
 def toy_replay(ctx, uni, mp, g, frac):
